@@ -124,10 +124,13 @@ func IdentityFromRelativeURI(uri string) (*resource.Identity, error) {
 	switch len(uriParts) {
 	case 2:
 		// e.g. Patient/123
+		if !fhir.IsID(uriParts[1]) {
+			break
+		}
 		return resource.NewIdentity(uriParts[0], uriParts[1], "")
 	case 4:
 		// e.g. Patient/123/_history/abc
-		if uriParts[2] != "_history" {
+		if uriParts[2] != "_history" || !fhir.IsID(uriParts[1]) || !fhir.IsID(uriParts[3]) {
 			break
 		}
 		return resource.NewIdentity(uriParts[0], uriParts[1], uriParts[3])
